@@ -16,6 +16,7 @@ import (
 	"fmt"
 	"math"
 	"math/big"
+	"os"
 	"reflect"
 	"sort"
 	"strings"
@@ -25,6 +26,9 @@ import (
 	"pgregory.net/rand"
 
 	"github.com/VKCOM/statshouse/internal/agent"
+	"github.com/VKCOM/statshouse/internal/aggregator"
+	"github.com/VKCOM/statshouse/internal/metajournal"
+	"github.com/VKCOM/statshouse/internal/pcache"
 	"github.com/VKCOM/statshouse/internal/data_model"
 	"github.com/VKCOM/statshouse/internal/data_model/gen2/tlstatshouse"
 	"github.com/VKCOM/statshouse/internal/format"
@@ -1136,6 +1140,231 @@ func runBucket(o *vu.Out, r *vu.Rng) {
 	}
 }
 
+// ---------- unique sketches at the thinning threshold ----------
+
+type bigCase struct {
+	a, step uint32
+	n       int
+	pre     []uint32 // hashes the receiver already holds (nil: a fresh item, the UmMarshall path)
+	top     bool     // the sketch sits on a string-top element instead of the tail
+}
+
+// the fullest unthinned sketch (uniquesHashMaxSize items), one below, one above (thinned), with and without the zero
+// hash, into a fresh item and into one that already holds hashes (inside and outside the incoming set)
+func bigCases(maxSize int) []bigCase {
+	var m uint32 = 2654435761 // odd: the hashes m*(k+1) mod 2^32 are pairwise different, non-zero and spread over the table
+	in1, in2 := m*5, m*9 // inside every incoming set
+	out1, out2 := m*uint32(maxSize+5), m*uint32(maxSize+6) // outside
+	return []bigCase{
+		{a: m, step: m, n: maxSize},
+		{a: m, step: m, n: maxSize, pre: []uint32{in1, in2, out1, out2}},
+		{a: m, step: m, n: maxSize + 1},
+		{a: 0, step: m, n: maxSize, top: true},
+		{a: m, step: m, n: maxSize - 1},
+		{a: m, step: m, n: maxSize - 1, pre: []uint32{in1, out1}, top: true},
+		{a: m, step: m, n: maxSize + 4000},
+	}
+}
+
+// what the property demands of the receiver's sketch, computed on plain sets: the union of what it held and what was
+// sent, restricted to the hashes its skip degree keeps (how far a sketch thins is C04's subject)
+func unionAt(a, b hllSet, skip uint32) hllSet {
+	set := map[uint32]struct{}{}
+	for _, s := range []hllSet{a, b} {
+		for _, x := range s.elems {
+			set[x] = struct{}{}
+		}
+		if s.zero {
+			set[0] = struct{}{}
+		}
+	}
+	res := hllSet{skip: skip}
+	for x := range set {
+		if skip < 32 && x&(1<<skip-1) != 0 {
+			continue
+		}
+		if x == 0 {
+			res.zero = true
+		} else {
+			res.elems = append(res.elems, x)
+		}
+		res.count++
+	}
+	sort.Slice(res.elems, func(i, j int) bool { return res.elems[i] < res.elems[j] })
+	return res
+}
+
+func runBigUnique(o *vu.Out, c bigCase, seed uint64) {
+	src := &data_model.MultiValue{}
+	rng := rand.New(seed)
+	src.AddCounterHost(rng, float64(c.n), data_model.TagUnion{})
+	for k := 0; k < c.n; k++ {
+		src.HLL.VerifInsertHash(c.a + uint32(k)*c.step)
+	}
+	it := &data_model.MultiItem{Key: data_model.Key{Metric: 7, Timestamp: 1700000000}, SF: 1, MetricMeta: &format.MetricMetaValue{}}
+	topKey := data_model.TagUnion{S: "top0"}
+	if c.top {
+		it.Tail.AddCounterHost(rng, 1, data_model.TagUnion{})
+		it.Top = map[data_model.TagUnion]*data_model.MultiValue{topKey: src}
+	} else {
+		it.Tail = *src
+	}
+	input := fmt.Sprintf("bigunique hashes=%d+k*%d,k<%d pre=%v top=%v", c.a, c.step, c.n, c.pre, c.top)
+	srcDig, srcSet := udig(&src.HLL), setOf(&src.HLL)
+	var item tlstatshouse.MultiItemBytes
+	if _, err := item.ReadTL1(assemble(it, 1700000000).wire); err != nil {
+		line := o.Case(input, "CSkip", false, "biguniq/problem")
+		o.Fail("wire_readable", line, input+" | "+err.Error())
+		return
+	}
+	agg := &data_model.MultiItem{SF: 1}
+	var dst *data_model.MultiValue
+	var before hllSet
+	if c.pre != nil {
+		if c.top {
+			agg.Top = map[data_model.TagUnion]*data_model.MultiValue{topKey: {}}
+			dst = agg.Top[topKey]
+		} else {
+			dst = &agg.Tail
+		}
+		dst.AddCounterHost(rng, 1, data_model.TagUnion{})
+		for _, h := range c.pre {
+			dst.HLL.VerifInsertHash(h)
+		}
+		before = setOf(&dst.HLL)
+	}
+	e := agg.MergeWithTLMultiItem(rng, data_model.AggregatorStringTopCapacity, &item, data_model.TagUnion{I: 77})
+	if c.top {
+		dst = agg.Top[topKey]
+	} else {
+		dst = &agg.Tail
+	}
+	preT := make([]int64, len(c.pre))
+	for i, h := range c.pre {
+		preT[i] = int64(h)
+	}
+	dstDig := "UN"
+	if dst != nil {
+		dstDig = udig(&dst.HLL)
+	}
+	term := fmt.Sprintf("CBigU %d %d %d %s %s %s", c.a, c.step, c.n, vu.ListZ(preT), srcDig, dstDig)
+	line := o.Case(input, term, true, "biguniq", fmt.Sprintf("biguniq/src-skip%d", srcSet.skip))
+	if e != 0 || dst == nil {
+		o.Fail("no_ingestion_error", line, input+fmt.Sprintf(" | ingestion error %d", e))
+		return
+	}
+	got := setOf(&dst.HLL)
+	want := unionAt(srcSet, before, got.skip)
+	if got.skip < max(srcSet.skip, before.skip) || got.count != want.count || got.zero != want.zero || !reflect.DeepEqual(got.elems, want.elems) ||
+		(c.pre == nil && got.skip != srcSet.skip) {
+		var xs, xw uint64
+		for _, x := range got.elems {
+			xs += uint64(x)
+		}
+		for _, x := range want.elems {
+			xw += uint64(x)
+		}
+		o.Fail("uniques_survive", line, input+fmt.Sprintf(" | unique set of %d items (sender skip %d; at skip %d: %d items, zero %v, sum %d) arrived as %d items (skip %d, zero %v, sum %d)",
+			srcSet.count, srcSet.skip, got.skip, want.count, want.zero, xw, got.count, got.skip, got.zero, xs))
+	}
+}
+
+// ---------- rows through the real handler of the aggregator ----------
+
+var handlerAgent *agent.Agent
+
+func makeHandlerAgent() *agent.Agent {
+	dir, err := os.MkdirTemp("", "verif-transfer")
+	if err != nil {
+		panic(err)
+	}
+	cfg := agent.DefaultConfig()
+	mc, _ := pcache.LoadMappingsCacheFile(nil, 1<<20, 86400)
+	res := tlstatshouse.GetConfigResult3{Addresses: []string{"127.0.0.1:1", "127.0.0.1:2", "127.0.0.1:3"}, ShardByMetricCount: 1}
+	a, err := agent.MakeAgent("tcp4", dir, "", nil, cfg, "verif-host", format.TagValueIDComponentAgent,
+		metajournal.MakeMetricsStorage(nil), mc, nil, nil, func(string, ...any) {}, nil, &res, nil)
+	if err != nil {
+		panic(err)
+	}
+	return a
+}
+
+// the rows of one agent bucket through the real handleSendSourceBucket3 on every replica (primary for the second or
+// not): the keys of the MultiItems it creates are the keys sent (timestamp included), with their own count and sum
+func checkHandler(o *vu.Out, r *vu.Rng, rows []*grow, batchNo int) {
+	if len(rows) == 0 {
+		return
+	}
+	if handlerAgent == nil {
+		handlerAgent = makeHandlerAgent()
+	}
+	t := 1700000000 + uint32(r.Intn(1000000))
+	replicaKey := int32(1 + batchNo%3)
+	var items []tlstatshouse.MultiItem
+	var sent []*data_model.MultiItem
+	var txt []string
+	for i, g := range rows {
+		it := itemOf(g)
+		it.Key.Metric = int32(1000 + i)
+		switch i % 4 { // the timestamp is omitted on the wire when it is the bucket's (or not set)
+		case 0, 1:
+			it.Key.Timestamp = t
+		case 2:
+			it.Key.Timestamp = t - uint32(1+r.Intn(5))
+		default:
+			it.Key.Timestamp = 0
+		}
+		var item tlstatshouse.MultiItem
+		if _, err := item.ReadTL1(assemble(it, t).wire); err != nil {
+			panic(err)
+		}
+		items = append(items, item)
+		sent = append(sent, it)
+		txt = append(txt, fmt.Sprintf("%d:ts=%d", it.Key.Metric, it.Key.Timestamp))
+	}
+	input := fmt.Sprintf("handler bucket t=%d (t%%3=%d) replicaKey=%d rows=[%s]", t, t%3, replicaKey, strings.Join(txt, " "))
+	kind := "handler/primary-replica"
+	if t%3 != uint32(replicaKey-1) {
+		kind = "handler/other-replica"
+	}
+	got, accepted, panicked := aggregator.VerifTransferViaHandler(handlerAgent, replicaKey, t, "agent-host", items)
+	line := o.Case(input, "CSkip", true, "handler", kind)
+	if !accepted || panicked {
+		o.Fail("key_survives_via_handler", line, input+fmt.Sprintf(" | the handler did not accept the bucket (accepted=%v panicked=%v)", accepted, panicked))
+		return
+	}
+	if len(got) != len(sent) {
+		o.Fail("key_survives_via_handler", line, input+fmt.Sprintf(" | %d rows sent, the aggregator holds %d", len(sent), len(got)))
+	}
+	for _, it := range sent {
+		want := it.Key
+		if want.Timestamp == 0 {
+			want.Timestamp = t
+		}
+		var found *data_model.MultiItem
+		var other *data_model.MultiItem
+		for _, x := range got {
+			if x.Item.Key == want {
+				found = x.Item
+			}
+			if x.Item.Key.Metric == want.Metric {
+				other = x.Item
+			}
+		}
+		if found == nil {
+			detail := "no row of this metric"
+			if other != nil {
+				detail = fmt.Sprintf("the row arrived with timestamp %d (tags equal: %v, stags equal: %v)", other.Key.Timestamp, other.Key.Tags == want.Tags, other.Key.STags == want.STags)
+			}
+			o.Fail("key_survives_via_handler", line, input+fmt.Sprintf(" | metric %d sent with timestamp %d: %s", want.Metric, want.Timestamp, detail))
+			continue
+		}
+		if found.Tail.Value.Count() != it.Tail.Value.Count()*it.SF || len(found.Top) != len(it.Top) {
+			o.Fail("key_survives_via_handler", line, input+fmt.Sprintf(" | metric %d: count %v*%v arrived as %v, %d top elements as %d", want.Metric, it.Tail.Value.Count(), it.SF, found.Tail.Value.Count(), len(it.Top), len(found.Top)))
+		}
+	}
+}
+
 // ---------- one row ----------
 
 func rowText(g *grow) string {
@@ -1366,6 +1595,7 @@ func main() {
 	seed := flag.Uint64("seed", 1, "")
 	out := flag.String("out", ".", "")
 	n := flag.Int("n", 1000, "number of rows")
+	big := flag.Int("big", 7, "number of rows with a unique sketch at the thinning threshold (spread over the run)")
 	flag.Parse()
 	// intern every string the generators use in a fixed order (ids must not depend on map iteration order)
 	for _, x := range []string{"hA", "hB", "agent-host", "first", "last"} {
@@ -1385,6 +1615,9 @@ func main() {
 		o.Fail("nul_string_tags_are_rejected", 0, "format.ValidStringValueBytes accepts a string with a zero byte")
 	}
 	var batch []*grow
+	batchNo, bigDone := 0, 0
+	_, maxSize, _, _ := data_model.VerifChConsts()
+	bigs := bigCases(maxSize)
 	for i := 0; i < *n; i++ {
 		boundary := i%40 == 7
 		var g *grow
@@ -1407,9 +1640,15 @@ func main() {
 		if i%10 == 5 {
 			runBucket(o, r)
 		}
-		if len(batch) == 20 || (i == *n-1 && len(batch) > 0) {
+		if len(batch) == 12 || (i == *n-1 && len(batch) > 0) {
 			checkSampleBucket(o, r, batch)
+			checkHandler(o, r, batch, batchNo)
+			batchNo++
 			batch = nil
+		}
+		if i%70 == 35 && bigDone < len(bigs) && bigDone < *big {
+			runBigUnique(o, bigs[bigDone], r.U64())
+			bigDone++
 		}
 	}
 }
